@@ -85,6 +85,19 @@ class ClassVal(object):
         return "<Class %s>" % self.cls.qualname
 
 
+class Choice(object):
+    """One of two callables, selected by a condition (`f = A if c else B`); a call evaluates both
+    alternatives under their condition and joins the results."""
+
+    def __init__(self, cond, a, b):
+        self.cond = cond
+        self.a = a
+        self.b = b
+
+    def __repr__(self):
+        return "<Choice %r / %r>" % (self.a, self.b)
+
+
 class ExtVal(object):
     """A name from outside the package (decimal.ROUND_CEILING, copy.copy, ...)."""
 
@@ -122,6 +135,9 @@ class LambdaVal(object):
         self.node = node
         self.env = env
         self.module = module
+
+
+CALLABLES = (FuncVal, BoundMeth, ClassVal, Choice, ExtVal, Builtin, LambdaVal)
 
 
 BUILTINS = set(
@@ -189,6 +205,19 @@ class ListObj(object):
         return o
 
 
+class CallIterObj(object):
+    """iter(callable, sentinel): immutable, consumed by a for statement"""
+
+    kind = "calliter"
+
+    def __init__(self, fn, sentinel):
+        self.callable = fn
+        self.sentinel = sentinel
+
+    def copy(self):
+        return self
+
+
 class EnvObj(object):
     kind = "env"
 
@@ -212,6 +241,8 @@ class EnvObj(object):
 def same(a, b):
     if a is b:
         return True
+    if isinstance(a, Choice) and isinstance(b, Choice):
+        return same(a.cond, b.cond) and same(a.a, b.a) and same(a.b, b.b)
     if isinstance(a, Term) and isinstance(b, Term):
         return a == b
     if isinstance(a, (Ref, TupleVal, ExtVal)) and type(a) is type(b):
@@ -508,6 +539,8 @@ class Interp(object):
                 pass
         if isinstance(a, TupleVal) and isinstance(b, TupleVal) and len(a.items) == len(b.items):
             return TupleVal([self.mk_ite(st, c, x, y) for x, y in zip(a.items, b.items)])
+        if isinstance(a, CALLABLES) and isinstance(b, CALLABLES):
+            return Choice(c, a, b)
         if is_numeric(a) and is_numeric(b) and not (is_boolish(a) and is_boolish(b)):
             a = self.to_poly(st, a, None)
             b = self.to_poly(st, b, None)
